@@ -69,3 +69,30 @@ package wallet
 //@   loop 2
 //@     modifies
 //@     invariant 0 <= i && i < len(addrs) && as == addrs[i]
+
+// ---------------------------------------------------------------------------
+// Decoders (C13)
+// ---------------------------------------------------------------------------
+
+//@ interface Backend
+//@   method NewAddress
+//@     requires recv != nil
+//@     ensures result != nil
+//@ end
+
+//@ func (*AddressDecMap).Decode
+//@   requires r != nil
+//@   modifies a.*
+//@   ensures err == nil ==> *a != nil && addrMapNonNil(*a)
+//@   loop 1
+//@     modifies (*a)[*]
+//@     invariant *a != nil && fresh(*a) && addrMapNonNil(*a)
+
+//@ func (*AddressMapArray).Decode
+//@   requires r != nil
+//@   modifies a.*
+//@   ensures err == nil ==> forall i int :: 0 <= i && i < len(a.Addr) ==> a.Addr[i] != nil && addrMapNonNil(a.Addr[i])
+//@   loop 1
+//@     modifies a.Addr[*]
+//@     invariant len(a.Addr) == mapLen && fresh(arr(a.Addr)) && off(a.Addr) == 0
+//@     invariant forall k int :: 0 <= k && k < $i ==> a.Addr[k] != nil && addrMapNonNil(a.Addr[k])
